@@ -160,3 +160,19 @@ text("c16-table-skip-first", "C16", RAW, "        async for varbind in varbinds:
 text("c16-wrapper-index-lost", "C16", PY, "            pythonized[\"0\"] = index\n            output.append(pythonized)\n        return output", "            output.append(pythonized)\n        return output")
 text("c16-s-generator-join", "C16", UTIL, "            row_id = \".\".join([str(node) for node in row_id_nodes])", "            row_id = \".\".join(str(node) for node in row_id_nodes)", expect="silent")
 text("c16-s-direct-slices", "C16", UTIL, "            tail = oid.nodes[num_base_nodes:]\n            col_id_nodes, row_id_nodes = tail[0], tail[1:]", "            col_id_nodes = oid.nodes[num_base_nodes]\n            row_id_nodes = oid.nodes[num_base_nodes + 1 :]", expect="silent")
+
+# ---------------------------------------------------------------- C19
+patch("rev-D13-trap-decode", "C19", "1aa18a8-fix__trap_listener_decodes_notifications_and_records_their_o.diff")
+text("c19-source-dropped", "C19", RAW, "        trap.source = packet.info\n", "")
+text("c19-source-conditional", "C19", RAW, "        trap.source = packet.info\n", "        if packet.info.port == 162:\n            trap.source = packet.info\n")
+text("c19-callback-twice", "C19", RAW, "        asyncio.ensure_future(callback(trap))\n", "        asyncio.ensure_future(callback(trap))\n        asyncio.ensure_future(callback(trap))\n")
+text("c19-callback-before-decode", "C19", RAW, "        trap = cast(Trap, mproc.decode(packet.data, credentials))\n        trap.source = packet.info\n        asyncio.ensure_future(callback(trap))\n", "        asyncio.ensure_future(callback(as_sequence))\n        trap = cast(Trap, mproc.decode(packet.data, credentials))\n        trap.source = packet.info\n")
+text("c19-mpm-by-const", "C19", RAW, "        mproc = mpm.create(version.value, handler, lcd)\n", "        mproc = mpm.create(1, handler, lcd)\n", note="v1 traps would be refused / v3 not decoded; selector must be the version field")
+text("c19-default-creds", "C19", RAW, "        trap = cast(Trap, mproc.decode(packet.data, credentials))\n", "        trap = cast(Trap, mproc.decode(packet.data, V2C(\"public\")))\n")
+text("c19-receiver-closes", "C19", "puresnmp/transport.py", "        self.callback(SocketResponse(data, SocketInfo(addr[0], addr[1])))\n", "        self.callback(SocketResponse(data, SocketInfo(addr[0], addr[1])))\n        if self.transport:\n            self.transport.close()\n")
+text("c19-receiver-debug-only", "C19", "puresnmp/transport.py", "            LOG.debug(\"Received packet:\\n%s\", hexdump)\n        self.callback(SocketResponse(data, SocketInfo(addr[0], addr[1])))", "            LOG.debug(\"Received packet:\\n%s\", hexdump)\n            self.callback(SocketResponse(data, SocketInfo(addr[0], addr[1])))")
+text("c19-receiver-port-addr-swapped", "C19", "puresnmp/transport.py", "SocketResponse(data, SocketInfo(addr[0], addr[1]))", "SocketResponse(data, SocketInfo(addr[1], addr[0]))")
+text("c19-v2c-mpm-skips-sm", "C19", "puresnmp_plugins/mpm/v2c.py", "        msg = self.security_model.process_incoming_message(decoded, credentials)\n        return msg", "        return decoded[2]")
+text("c19-trapinfo-oid-index", "C19", PY, "        return self.raw_trap.value.varbinds[1].value.pythonize()  # type: ignore", "        return self.raw_trap.value.varbinds[0].value.pythonize()  # type: ignore")
+text("c19-trapinfo-values-slice", "C19", PY, "        for varbind in self.raw_trap.value.varbinds[2:]:", "        for varbind in self.raw_trap.value.varbinds[3:]:")
+text("c19-s-unpack-form", "C19", RAW, "        as_sequence = Sequence.decode(packet.data)\n        version = cast(Integer, as_sequence[0])\n\n        mproc = mpm.create(version.value, handler, lcd)", "        as_sequence = Sequence.decode(packet.data)\n        version, _, _ = as_sequence\n\n        mproc = mpm.create(version.pythonize(), handler, lcd)", expect="silent")
